@@ -118,7 +118,7 @@ static void case_encode(long idx, ksym *s, vrng *r, const cpucfg *lvl)
 	uint8_t a[MAXROWS * MAXK]; gen_coef(r, a, rows, k);
 	int d_src[MAXK], d_dst[MAXROWS];
 	uint64_t tag = vr64(r);
-	uint8_t *tbl = gs_place(s_tbl, (size_t) 32 * k * rows, vrn(r, 2) ? G_END : G_START, 0);
+	uint8_t *tbl = vrn(r, 3) ? gs_place(s_tbl, (size_t) 32 * k * rows, vrn(r, 2) ? G_END : G_START, 0) : gs_place(s_tbl, (size_t) 32 * k * rows, G_NEAR_END, 1 + (int) vrn(r, 63));   /* the headers ask for no particular alignment of the tables */
 	uint8_t **sp = (uint8_t **) gs_place(s_sp, 8 * (size_t) k, G_END, 0), **dp = (uint8_t **) gs_place(s_dp, 8 * (size_t) rows, G_END, 0);
 	for (int j = 0; j < k; j++) { sp[j] = place(r, s_src[j], len, &d_src[j]); v_fill_tag(sp[j], len, tag + j); }
 	for (int i = 0; i < rows; i++) { dp[i] = place(r, s_dst[i], len, &d_dst[i]); v_fill_tag(dp[i], len, tag + 1000 + i); }
@@ -173,7 +173,7 @@ static void case_update(long idx, ksym *s, vrng *r, const cpucfg *lvl)
 	int gfni = strstr(s->isa, "gfni") != 0;
 	uint8_t a[MAXROWS * MAXK]; gen_coef(r, a, rows, k);
 	uint64_t tag = vr64(r);
-	uint8_t *tbl = gs_place(s_tbl, (size_t) 32 * k * rows, vrn(r, 2) ? G_END : G_START, 0);
+	uint8_t *tbl = vrn(r, 3) ? gs_place(s_tbl, (size_t) 32 * k * rows, vrn(r, 2) ? G_END : G_START, 0) : gs_place(s_tbl, (size_t) 32 * k * rows, G_NEAR_END, 1 + (int) vrn(r, 63));   /* the headers ask for no particular alignment of the tables */
 	uint8_t **dp = (uint8_t **) gs_place(s_dp, 8 * (size_t) rows, G_END, 0);
 	int dd; uint8_t *srcs[MAXK];
 	for (int j = 0; j < k; j++) { srcs[j] = place(r, s_src[j], len, &dd); v_fill_tag(srcs[j], len, tag + j); }
